@@ -49,33 +49,34 @@ func writeEvidence(a *Args, g *agg, shapes, scheds, states, violations int, wall
 	}
 	comp := Components[a.Property]
 	cov := map[string]any{
-		"evaluations":            g.Runs,
-		"distinct_nontrivial":    shapes,
-		"rule":                   rule,
-		"samples":                samples,
-		"runs_per_hour":          int(float64(g.Runs) / wall * 3600),
-		"seeds":                  fmt.Sprintf("base VERIF_SEED=%d; run k uses mix(seed,k), k in [0,%d)", a.Seed, g.Runs),
-		"operations":             g.Ops,
-		"scheduler_steps":        g.Steps,
-		"distinct_interleavings": scheds,
-		"distinct_model_states":  states,
-		"simulated_time_s":       float64(g.SimNanos) / 1e9,
-		"faults_fired":           g.Faults,
-		"probes":                 g.Probes,
-		"linearizability":        g.Lin,
-		"runs_per_scenario":      g.PerScen,
-		"overrun_runs_discarded": g.Overruns,
-		"workers_retired_early":  g.Retired,
-		"workers_restarted":      g.Restarted,
-		"known_finding_hits":     g.KnownHits,
-		"known_finding_lines":    knownLines,
-		"real_components":        comp[0],
-		"stub_components":        comp[1],
-		"instrumentation":        instr,
-		"engine":                 a.Engine,
-		"toolchain":              a.Toolchain,
-		"tree_id":                a.TreeID,
-		"workers":                a.Workers,
+		"evaluations":             g.Runs,
+		"distinct_nontrivial":     shapes,
+		"rule":                    rule,
+		"samples":                 samples,
+		"runs_per_hour":           int(float64(g.Runs) / wall * 3600),
+		"seeds":                   fmt.Sprintf("base VERIF_SEED=%d; run k uses mix(seed,k), k in [0,%d)", a.Seed, g.Runs),
+		"operations":              g.Ops,
+		"scheduler_steps":         g.Steps,
+		"distinct_interleavings":  scheds,
+		"distinct_model_states":   states,
+		"simulated_time_s":        float64(g.SimNanos) / 1e9,
+		"faults_fired":            g.Faults,
+		"probes":                  g.Probes,
+		"linearizability":         g.Lin,
+		"runs_per_scenario":       g.PerScen,
+		"overrun_runs_discarded":  g.Overruns,
+		"workers_retired_early":   g.Retired,
+		"workers_restarted":       g.Restarted,
+		"unschedulable_scenarios": g.Unschedulable,
+		"known_finding_hits":      g.KnownHits,
+		"known_finding_lines":     knownLines,
+		"real_components":         comp[0],
+		"stub_components":         comp[1],
+		"instrumentation":         instr,
+		"engine":                  a.Engine,
+		"toolchain":               a.Toolchain,
+		"tree_id":                 a.TreeID,
+		"workers":                 a.Workers,
 	}
 	ev := map[string]any{
 		"property_id": a.Property,
